@@ -1177,7 +1177,7 @@ def replay_saved(rep, saved, claims=None):
 
 # -- growing with a pool of worker processes (grow(i, num_workers=k)) ---------------------------------
 
-def parallel_grow_cases(rep, count=1, partial=False):
+def parallel_grow_cases(rep, count=1, partial=False, farmer=False):
     """Crop.tla's Grow(i) stores the batch's results in the order the batch was sown whatever the order in which the
     workers finish: batches of 3 whose first setting is the slowest are grown with num_workers=2 (real loky processes)."""
     import time
@@ -1191,8 +1191,13 @@ def parallel_grow_cases(rep, count=1, partial=False):
                 import time as _t
                 _t.sleep(0.7 if a in slow else 0.0)
                 return float(100 * a + 3)
-            crop = xyz.Crop(fn=fn, name="pg", parent_dir=tmp, batchsize=bs, shuffle=(t % 2 == 1) and 3)
-            crop.sow_combos({"a": list(range(1, n + 1))}, verbosity=0)
+            if farmer:
+                # C06: the crop of a Runner; the reaped Dataset must be the direct run's
+                runner_ = xyz.Runner(fn, var_names="x")
+                crop = runner_.Crop(name="pg", parent_dir=tmp, batchsize=bs)
+            else:
+                crop = xyz.Crop(fn=fn, name="pg", parent_dir=tmp, batchsize=bs, shuffle=(t % 2 == 1) and 3)
+            crop.sow_combos({"a": list(range(1, n + 1))}, verbosity=0, **({"shuffle": (t % 2 == 1) and 3} if farmer else {}))
             sink = io.StringIO()
             with contextlib.redirect_stdout(sink), contextlib.redirect_stderr(sink):
                 if partial:
@@ -1206,7 +1211,13 @@ def parallel_grow_cases(rep, count=1, partial=False):
                     xyz.Crop(name="pg", parent_dir=tmp).grow_missing(num_workers=2, verbosity=0)
                 res = xyz.Crop(name="pg", parent_dir=tmp).reap(allow_incomplete=True) if partial else xyz.Crop(name="pg", parent_dir=tmp).reap()
             want = tuple(float(100 * a + 3) for a in range(1, n + 1))
-            case = dict(kind="parallel_grow", n=n, batchsize=bs, num_workers=2, partial=partial)
+            case = dict(kind="parallel_grow", n=n, batchsize=bs, num_workers=2, partial=partial, farmer=farmer)
+            if farmer:
+                import xarray as xr
+                if not isinstance(res, xr.Dataset) or list(res["a"].values) != list(range(1, n + 1)):
+                    rep.add_violation(case, "Runner crop grown with num_workers=2: reap returned %r" % (res,), key=dict(tag="direct", kind="parallel_grow"))
+                    continue
+                res = tuple(float(v) for v in res["x"].values)
             rep.add_case(["parallel_grow", t, partial], sample=None)
             if partial:
                 # which settings are in batch 2 depends on the shuffle: the grown values must sit at their own positions,
